@@ -1,1 +1,2 @@
 pub mod rng;
+pub mod hex;
